@@ -103,11 +103,8 @@ fn stacks(maxlen: usize) -> Vec<Vec<i64>> {
     out
 }
 
-/// A Compute of astronomically large breadth is not a bounded computation (finding F9 is about
-/// exactly that); single-step drivers do not start one.
-fn feasible(cfg: &RunCfg) -> bool {
-    let op = &cfg.prog[cfg.vm0.pc.min(cfg.prog.len() - 1)];
-    !(ops::name(op) == "COM" && cfg.vm0.st.last().map(|b| *b > 64).unwrap_or(false))
+fn feasible(_cfg: &RunCfg) -> bool {
+    true
 }
 
 fn one(b: &mut Batcher, label: String, cfg: RunCfg) {
